@@ -8,8 +8,7 @@ RULE = ('Angle::new(p, d) on the exhaustive grid p in [-512,512] (quick) / [-409
         'Cartesian (x,y) on axes, diagonals, random, tiny/huge; scalar values incl. +-0; dimension indices to 2^40. non-trivial = constructor result with non-zero blade or remainder; distinct by result bits')
 TRUSTED = TRUSTED_COMMON
 ASSUMPTIONS = ASSUME_COMMON + ['new_from_cartesian uses libm atan2: its value is decided by predicate cartesian_value against mpmath']
-S3_LEGS = ['value of Angle::new against the REAL p*pi/d (the theorems relate the result to the computed float total): predicate new_value',
-           'negative p/d: direction congruence and "fewer than two turns": predicate new_value; new_from_cartesian / Geonum::new_from_cartesian: predicate cartesian_value']
+S3_LEGS = ["value of Angle::new against the REAL p*pi/d: theorems C02_total_real_pi / C02_new_real_pi (direction within a stated bound for finite quotients); predicate new_value re-decides every generated case incl. the fast path and |p/d| beyond the theorem's range", "negative p/d: 'at most one extra turn' is C02_negative_at_most_one_turn; new_from_cartesian / Geonum::new_from_cartesian values are theorems under atan2_acc (C02_from_cartesian_direction / _value) and decided per case by predicate cartesian_value"]
 
 def generate(rng, tier):
     from .C01 import grid_cases
